@@ -17,7 +17,7 @@ NLINEAR = 3
 
 def base_font():
     glyphs = [dict(adv=500, attrs={5: i, 6: i % 2}) for i in range(9)]
-    glyphs[7]['adv'] = 0
+    glyphs[7]['adv'] = 0; glyphs[7]['attrs'][2] = 16       # the mark has bidi class 16 (non-spacing mark): reverseSlots keeps such glyphs after their base
     cm = {0x20: 1, 0x61: 2, 0x62: 3, 0x63: 4, 0x301: 7, 0x64: 8}
     return dict(glyphs=glyphs, cmap=cm, num_attrs=16, names={256: 'F'}, feats=[(tag('tst1'), 256, 0, [(0, 256), (1, 256), (3, 256)])], langs=[])
 
